@@ -7,6 +7,9 @@ def goldenHash : Bytes := ([89, 191, 62, 150, 76, 39, 42, 253, 130, 69, 253, 42,
 def emptyHash : Bytes := ([227, 176, 196, 66, 152, 252, 28, 20, 154, 251, 244, 200, 153, 111, 185, 36, 39, 174, 65, 228, 100, 155, 147, 76, 164, 149, 153, 27, 120, 82, 184, 85] : Bytes)
 def key01 : String := "/batches/19d50b3346fa31fabd157fb3a00641ff76f059b1a45da9d4348372f53d91d473"
 def key02 : String := "/batches/09d4b5974a078714b3504959d4c67fe817f089878e2e6e1950b86e65f8494202"
+/-- datastore keys of the batches `["ab","c"]` and `["a","bc"]` -/
+def keyAbC : String := "/batches/8e502afb4273fb33b57a8c24a5709d6c7030c2c8626f421ddae7b4f93707455f"
+def keyABc : String := "/batches/5eee4f0e9c8cfac2efc9945e5e600f0a57d45023af5ddc3c1dc04bfcdf9657fc"
 /-- every method of `BatchQueue` in the current source; `true` = pointer receiver, first statement `bq.mu.Lock()`, second `defer bq.mu.Unlock()`, no other use of the mutex, no goroutine / function literal -/
 def queueMethods : List (String × Bool) := [("AddBatch", true), ("Load", true), ("Next", true)]
 /-- places outside `BatchQueue`'s methods and constructor that select a field of a `BatchQueue` (`x.queue.{queue,mu,db,maxQueueSize}`) -/
